@@ -4,6 +4,7 @@ import (
 	"encoding/json"
 	"fmt"
 	"os"
+	"regexp"
 	"sort"
 	"strings"
 	"time"
@@ -42,6 +43,8 @@ type schedResult struct {
 	Fatal     bool         `json:"fatal"`
 	HarnessEr string       `json:"harness_error,omitempty"`
 }
+
+var unnamedLock = regexp.MustCompile(`(\*vsync\.[A-Za-z]+)@0x[0-9a-f]+`)
 
 // RunSched explores all schedules of the scenario with at most Bound
 // preemptions: the root execution is run first, then every first-level
@@ -146,8 +149,13 @@ func RunSched(r *Run, spec SchedSpec) *vsync.Stats {
 	r.Traces += total.Executions
 	r.Evaluations += total.Executions
 	r.mu.Unlock()
-	var edges []string
+	// locks without a name appear by address (a fresh one per execution): reported as one class
+	edgeSet := map[string]bool{}
 	for e := range total.LockEdges {
+		edgeSet[unnamedLock.ReplaceAllString(e, "$1@(unnamed)")] = true
+	}
+	var edges []string
+	for e := range edgeSet {
 		edges = append(edges, e)
 	}
 	sort.Strings(edges)
